@@ -83,17 +83,25 @@ TCallStrict ==
     /\ IsEvent("call") /\ Strict /\ ~Bad(Rec[l])
     /\ Rec[l].out \in {"ok", "err"}
     /\ Read(Rec[l].c)
-    /\ pos' = Cursor(Rec[l])
-    /\ LET r == Last(outs') IN
-         r.out # "any" => /\ Rec[l].out = r.out
-                          /\ r.out = "ok" => Rec[l].v = r.val
+    /\ Last(outs').out # "any" =>
+          /\ pos' = Cursor(Rec[l])
+          /\ Rec[l].out = Last(outs').out
+          /\ Last(outs').out = "ok" => Rec[l].v = Last(outs').val
 
 TCallBad ==
-    /\ IsEvent("call") /\ mode = "dec" /\ Bad(Rec[l])
+    /\ IsEvent("call") /\ mode \in {"dec", "free"} /\ Bad(Rec[l])
     /\ PrintT(<<"VEC", ToJson([ finding |-> IF Rec[l].out = "panic" THEN "panic" ELSE "cursor-out-of-bounds",
-                                op |-> OpName(Rec[l].c), class |-> DecAt(bits, pos, Rec[l].c).class, event |-> l ])>>)
-    /\ pos' = Len(bits)
-    /\ UNCHANGED <<bits, ops, mode, outs>>
+                                op |-> OpName(Rec[l].c),
+                                class |-> IF mode = "free" THEN "after-overlong-word" ELSE DecAt(bits, pos, Rec[l].c).class,
+                                event |-> l ])>>)
+    /\ pos' = Len(bits) /\ mode' = "free"
+    /\ UNCHANGED <<bits, ops, outs>>
+
+\* after an "any" outcome only the property itself is left to check
+TCallFree ==
+    /\ IsEvent("call") /\ mode = "free" /\ ~Bad(Rec[l])
+    /\ Rec[l].out \in {"ok", "err"}
+    /\ UNCHANGED vars
 
 TCallLoose ==
     /\ IsEvent("call") /\ ~Strict /\ ~Bad(Rec[l])
@@ -103,5 +111,5 @@ TCallLoose ==
     /\ outs' = Append(outs, [c |-> Rec[l].c, out |-> Rec[l].out, val |-> 0, p |-> pos', class |-> "observed"])
     /\ UNCHANGED <<bits, ops, mode>>
 
-TNext == TReset \/ TEnc \/ TFinish \/ TDec \/ TEnd \/ TLoad \/ TCallStrict \/ TCallLoose \/ TCallBad
+TNext == TReset \/ TEnc \/ TFinish \/ TDec \/ TEnd \/ TLoad \/ TCallStrict \/ TCallLoose \/ TCallBad \/ TCallFree
 =============================================================================
